@@ -80,6 +80,12 @@ func c03EvalOrder(e *Env) {
 		"block-in-include-twice": "{% include 'blk' %}{% include 'blk' %}",
 		"with-duplicate-key":     "{% include 'p2' with {'k': 1, 'k': 2, 'j': 3, 'k': 4} %}",
 		"set-twice-in-loop":      "{% for i in [1, 2, 3] %}{% set q = i %}{% set q = q * 2 %}{% endfor %}{{ q }}",
+		// filters given a hash whose entries compete (one search string a prefix of another, equal after conversion)
+		"replace-hash-prefixes": "{{ '%name% %name %n'|replace({'%name': 'A', '%name%': 'B', '%n': 'C', '%': 'D', 'name': 'E'}) }}",
+		"replace-hash-overlap":  "{{ 'abcabc'|replace({'ab': '1', 'abc': '2', 'bc': '3', 'a': '4', 'c': '5', 'b': '6'}) }}",
+		"format-hash":           "{{ '%s-%s'|format({'a': 1, 'b': 2}|keys|first, {'z': 1, 'y': 2}|keys|last) }}",
+		"merge-competing-keys":  "{{ {'1': 'a', 'x': 0}|merge({1: 'b'})|merge({'1': 'c', 1: 'd'})|json_encode|raw }}{{ merge({'k': 1}, {'k': 2}, {'K': 3})|keys|join(',') }}",
+		"default-hash-first":    "{% set h = {'q': 1, 'p': 2, 'r': 3, 'a': 4, 'z': 5} %}{{ h|first }}{{ h|last }}{{ h|keys|first }}{% for k, v in h %}{{ k }}{% endfor %}{{ h|join(',') }}{{ h|slice(1, 2)|keys|join(',') }}{{ h|reverse|keys|join(',') }}{{ h|sort|join(',') }}",
 	}
 	libs := map[string]string{"lib": "{% macro a() %}A{% endmacro %}{% macro b() %}B{% endmacro %}{% macro c() %}C{% endmacro %}", "lib2": "{% macro a() %}A2{% endmacro %}", "blk": "{% block x %}X{% endblock %}", "p2": "[{{ k }}{{ j }}]", "p": "."}
 	for _, name := range sortedKeys(dups) {
